@@ -3,7 +3,7 @@
 every property's quick check is run on it (control mode: nothing is written). meta.json's detected_by / not_detected_by
 are refreshed and a matrix is printed. Scratch copies live under $TMPDIR (default /var/tmp) and are removed."""
 import json, os, subprocess, sys, tempfile, shutil, concurrent.futures as cf
-V='/verif'; BIN=V+'/bin/fundcheck'
+V='/verif'; BIN=os.environ.get('FC',V+'/bin/fundcheck')
 args=sys.argv[1:]; jobs=6
 if args[:1]==['-j']: jobs=int(args[1]); args=args[2:]
 seeds=args or sorted(d for d in os.listdir(V+'/seeded') if os.path.isfile(f'{V}/seeded/{d}/patch.diff'))
